@@ -332,27 +332,29 @@ def dropCache (c : CacheB) : CacheB :=
   let c := c.check (c.table.all fun a => c.owns a)
   { c with st := fun _ => .dead, has := fun _ => false, table := [] }
 
-/-! ## iterators: two cursors, 0 = null -/
+/-! ## iterators: two cursors -/
 
 structure Cursors where
-  next : Nat
+  /-- `None` = the null pointer (exhausted, or created on an empty cache) -/
+  next : Option Nat
   nextBack : Nat
 deriving Repr, DecidableEq, Inhabited
 
 /-- `Iter::new` / `TakingIterator::new` -/
 def cursorsNew (c : CacheB) : Cursors :=
-  if c.shape.items = 0 then ⟨0, 0⟩ else ⟨(c.links c.sl).prev, (c.links c.sl).next⟩
+  if c.shape.items = 0 then ⟨none, 0⟩ else ⟨some (c.links c.sl).prev, (c.links c.sl).next⟩
 
 /-- One `next` (front) or `next_back`. `take`: the entry is moved out with `ptr::read`. Returns the
 address yielded. -/
 def cursorStep (c : CacheB) (it : Cursors) (front take : Bool) : CacheB × Cursors × Option Nat :=
-  if it.next = 0 then (c, it, none)
-  else
-    let a := if front then it.next else it.nextBack
+  match it.next with
+  | none => (c, it, none)
+  | some nx =>
+    let a := if front then nx else it.nextBack
     let c := c.check (c.owns a)
     let it' : Cursors :=
-      if it.next = it.nextBack then ⟨0, it.nextBack⟩
-      else if front then ⟨(c.links a).prev, it.nextBack⟩ else ⟨it.next, (c.links a).next⟩
+      if nx = it.nextBack then ⟨none, it.nextBack⟩
+      else if front then ⟨some (c.links a).prev, it.nextBack⟩ else ⟨some nx, (c.links a).next⟩
     let c := if take then { c with has := fun y => if y = a then false else c.has y } else c
     (c, it', some a)
 
@@ -367,8 +369,9 @@ def cursorRun : CacheB → Cursors → List Bool → Bool → CacheB × Cursors 
 def cursorDrain : Nat → CacheB → Cursors → CacheB × Cursors
   | 0, c, it => (c, it)
   | fuel + 1, c, it =>
-    if it.next = 0 then (c, it)
-    else let r := cursorStep c it true true; cursorDrain fuel r.1 r.2.1
+    match it.next with
+    | none => (c, it)
+    | some _ => let r := cursorStep c it true true; cursorDrain fuel r.1 r.2.1
 
 /-- `Drain::new` after the `fix:` commit: cursors first, then the cache is reset
 (`clear_no_drop`: the buckets become vacant but keep their contents). -/
